@@ -244,6 +244,42 @@ var logMutators = []logMutator{
 		}
 		return []byte(strings.Join(ls, ""))
 	}},
+	{"line-without-a-usable-timestamp", func(t *rapid.T, b []byte) []byte {
+		ls := splitKeep(b)
+		if len(ls) == 0 {
+			return b
+		}
+		i := uni(t, len(ls), "line")
+		bad := oneOf(t, []string{"not-a-time", "", "2026-13-45T99:99:99Z", "yesterday"}, "value")
+		ls[i] = mutateJSONLine(t, ls[i], func(top map[string]any) { setTimes(top, bad) })
+		return []byte(strings.Join(ls, ""))
+	}},
+	{"cyclic-links", func(t *rapid.T, b []byte) []byte {
+		// what a hand merge of two branches can produce: A after B on one side, B after A on the other
+		var ids []string
+		for _, l := range splitKeep(b) {
+			var ev LogEvent
+			if json.Unmarshal([]byte(strings.TrimSpace(l)), &ev) == nil && ev.Type == "new_task" {
+				if id := ev.Str("id"); id != "" {
+					ids = append(ids, id)
+				}
+			}
+		}
+		if len(ids) < 2 {
+			return b
+		}
+		a, c := ids[0], ids[len(ids)-1]
+		out := string(b)
+		if !strings.HasSuffix(out, "\n") && out != "" {
+			out += "\n"
+		}
+		for _, e := range [][2]string{{a, c}, {c, a}} {
+			m := map[string]any{"type": "link", "ts": "2026-01-01T00:00:00Z", "data": map[string]any{"from_id": e[0], "to_id": e[1], "type": "depends"}}
+			bb, _ := json.Marshal(m)
+			out += string(bb) + "\n"
+		}
+		return []byte(out)
+	}},
 	{"random-bytes", func(t *rapid.T, b []byte) []byte {
 		return rapid.SliceOfN(rapid.Byte(), 1, 300).Draw(t, "bytes")
 	}},
